@@ -347,6 +347,10 @@ func runC09(r *mc.Report, e *Env) {
 			r.Count("cases_"+c.Part, 1)
 			c09Dispatch(r, nw, c)
 		}
+		c09Sequences(r, e, nw, over.Load)
+		if e.Shard == 0 {
+			c09Race(r, e, nw)
+		}
 	}); msg != "" {
 		r.EngineError("bubble ended with: " + msg)
 	}
@@ -358,9 +362,20 @@ func replayC09(r *mc.Report, e *Env, raw json.RawMessage) {
 	if err := json.Unmarshal(raw, &c); err != nil {
 		panic(err)
 	}
+	var sc c09SeqCase
+	json.Unmarshal(raw, &sc)
 	if msg := inBubble(func() {
 		nw := newC09Net()
 		defer nw.close()
+		if sc.Part == "sequence" {
+			c09SeqRun(r, nw, sc.Seq)
+			return
+		}
+		var rc c09RaceCase
+		if json.Unmarshal(raw, &rc); rc.Part == "race" {
+			mc.Replay(rc.Choices, func(x *mc.Ctx) { fmt.Println("outcome:", c09RaceRun(r, nw, x)) })
+			return
+		}
 		c09Dispatch(r, nw, c)
 	}); msg != "" {
 		r.EngineError("bubble ended with: " + msg)
